@@ -435,7 +435,17 @@ class _Ops:
         gd = dict(desc["grid"])
         gd["size"] = desc["size"]
         gd["align_corners"] = bool(desc.get("align_corners", True))
+        defaults = desc.get("defaults") or ()
+        if "spacing" in defaults:
+            gd["spacing"] = [1.0] * len(gd["spacing"])
+        if "direction" in defaults:
+            gd["angles"] = [0.0] * len(gd["angles"])
+            gd["flips"] = [False] * len(gd["flips"])
         grid = gen.make_grid(gd)
+        if "origin" in defaults:
+            # header values that coincide with a format's defaults (origin exactly 0, unit spacing, identity direction):
+            # a writer that leaves "default" fields out relies on every reader filling them in the same way
+            grid = grid.origin(tuple(0.0 for _ in range(grid.ndim)))
         return grid
 
     # -------------------------------------------------------- deepali writer
@@ -688,6 +698,9 @@ class _Ops:
             if entry == "meta_reader":
                 raw = ShortRaw(p, int(op.get("chunk", 7)), self.c["faults"])
                 with io.BufferedReader(raw, buffer_size=16) as fh:
+                    if op.get("consumed"):
+                        fh.readline()  # the caller has looked at the first header line already (the reader rewinds)
+                        self.c["probes"]["reader_given_partly_consumed_file_object"] += 1
                     return read_meta_image(fh)
             raise HarnessError(entry)
 
@@ -1004,6 +1017,8 @@ class _Gen:
             if caps.get("max_channels") == 1:
                 pk = "image"
             desc = self.payload_desc(rng, pk)
+            if rng.chance(0.15):
+                desc["defaults"] = sorted(rng.sample(["origin", "spacing", "direction"], rng.randint(1, 3)))
             if caps.get("max_channels") == 1:
                 desc["C"] = 1
             if desc["dtype"] == "int64" and suffix_of(name) not in (".mhd", ".nrrd", ".nhdr"):
@@ -1071,6 +1086,8 @@ class _Gen:
                     op["ac"] = bool(rng.chance(0.5))
                 if op["entry"] == "meta_reader":
                     op["chunk"] = rng.choice([1, 3, 7, 64]) if sc["faults"]["short_io"] else 1 << 20
+                    if rng.chance(0.35):
+                        op["consumed"] = True
             return op
         if kind == "delete":
             name = rng.choice(present)
@@ -1117,7 +1134,7 @@ class IoEngine:
             o = dict(op)
             o.pop("fault")
             out.append(o)
-        for key in ("ac", "edit_grid", "hold"):
+        for key in ("ac", "edit_grid", "hold", "consumed"):
             if key in op:
                 o = dict(op)
                 o.pop(key)
